@@ -401,14 +401,14 @@ func c17Ops() []c17Op {
 		// methods from a few hundred terms on); every scalar is derived from the secret.
 		// cost 3: source-level monitor only (hundreds of millions of instructions per call)
 		{zeroOK: true, name: "MultiScalarMult/long-list", prep: func(s c17Secret, v int) func() {
-			l := []int{300, 520, 1030}[v%3]
+			l := []int{300, 520, 1030, 4100}[v%4]
 			ss, ps := make([]*Scalar, l), make([]*Point, l)
 			for i := range ss {
 				ss[i] = scalarFromBig(oracle.Mod(new(big.Int).Add(oracle.MulM(s.v, big.NewInt(int64(2*i+1)), n), big.NewInt(int64(i))), n))
 				ps[i] = pubPoint(i)
 			}
 			return func() { new(Point).MultiScalarMult(ss, ps) }
-		}, vars: 3, cost: 3, maxSecrets: 10},
+		}, vars: 4, cost: 3, maxSecrets: 6},
 		{name: "Point.ops-on-secret-point", prep: func(s c17Secret, v int) func() {
 			Q := new(Point).ScalarBaseMult(scalarFromBig(s.v)) // secret non-identity point in a "natural" representative
 			P := pubPoint(v)
@@ -467,8 +467,21 @@ func c17Ops() []c17Op {
 		{name: "ECDH", prep: func(s c17Secret, v int) func() {
 			k := mustPriv(s.v)
 			peer := peerKey()
+			if v == 1 {
+				// a PUBLIC operand with a history: a fresh object for the same peer that has
+				// verified a few signatures before it is used for key agreement (whatever a key
+				// object builds lazily on its second or third use is there now)
+				peer = mustPub(oracle.MulG(big.NewInt(0xabcdef)))
+				r0, s0, _, _, _ := oracle.RFC6979Sign(big.NewInt(0xabcdef), digest)
+				sig := oracle.DERWriteSig(r0, s0)
+				for j := 0; j < 4; j++ {
+					_ = peer.Verify(digest, sig, nil)
+				}
+				_ = peer.Bytes()
+				_ = peer.CompressedBytes()
+			}
 			return func() { _, _ = k.ECDH(peer) }
-		}, vars: 1, cost: 2},
+		}, vars: 2, cost: 2},
 		{name: "SignRaw/hedged", prep: func(s c17Secret, v int) func() {
 			k := mustPriv(s.v)
 			return func() { _, _, _, _ = k.SignRaw(&fixedReader{data: entropy}, digest) }
